@@ -50,6 +50,8 @@ def check_qr(A, q0, q1, fail, tag):
     try:
         Q, R, qi = bond_ops.qr(A, q0, q1)
     except Exception as e:
+        if type(e).__name__ == 'CaseTimeout':      # the runner's wall-clock alarm must reach the runner
+            raise
         fail('returns', f'{tag}: qr raised {type(e).__name__}: {e}')
         return
     if oracle.snapshot([A, q0, q1]) != snap:
